@@ -25,6 +25,10 @@ func stallCase(c *h.Case) {
 	waitClose := rng.Intn(3) == 0
 	first := []string{"nothing", "nothing", "nothing-then-close"}[rng.Intn(3)]
 	c.Data["kind"], c.Data["server"], c.Data["idle_connections"], c.Data["mode"] = "stall", si.Name, k, first
+	if si.Inc == nil {
+		run.Inconclusive("stall server has no working websocket incumbent")
+		return
+	}
 	stallMu.Lock()
 	defer stallMu.Unlock()
 	if wd(stallKey) < 20*time.Second {
